@@ -2,7 +2,7 @@
 
 SPEC  IPFSConnMC: daemon process (go-ipfs-pinner semantics + one scripted behaviour per request) and the
       connector transcribed from ipfshttp.go; every predicate of the statement (SuccessSound, FailureReported,
-      NoRedundantRequest, UnpinIdempotent, StallGivesUp, UpdateOnlyIfRecursive, SourceKept, OriginsBestEffort) on every terminal
+      NoRedundantRequest, UnpinIdempotent, StallGivesUp, UpdateOnlyIfRecursive, SourceKept, OriginsBestEffort, CallReturns, CancelPropagates) on every terminal
       state, exhaustively.  Two deliberate "what if" runs show the design-level findings (no trailer check,
       no watchdog on pin/update) as model counterexamples; they only count if the real code follows them.
 GEN   TLC prints one script per terminal state of the model (call + prior pin table + behaviour per request).
@@ -18,6 +18,7 @@ import re
 import tla
 import vcheck
 
+BLOCKING = ("stall", "progStall", "flat", "progForever")
 OBEH = ["ok", "ok", "err", "drop", "stall"]
 
 
@@ -29,7 +30,7 @@ def parse_cases(out):
         v = p.value()
         inp, beh = v[1], v[2]
         cases.append({"op": inp["op"], "mode": inp["mode"], "upd": inp["upd"], "norig": 0,
-                      "prior": inp["prior"], "intf": inp["intf"], "beh": list(beh)})
+                      "prior": inp["prior"], "intf": inp["intf"], "cancel": inp["cancel"], "beh": list(beh)})
     return cases
 
 
@@ -55,6 +56,10 @@ def decorate(c, rng, i, origins=None):
 
 
 def key_of(pred, rec):
+    if pred == "CallReturns":
+        return "C16:call:never-returned"
+    if pred == "CancelPropagates":
+        return "C16:pin:cancel-not-propagated"
     if pred == "OriginsBestEffort":
         return "C16:pin:origins-hang:no-timeout" if rec["in"].get("ohang") else "C16:pin:hangs:no-timeout"
     reqs = rec["out"]["reqs"]
@@ -75,7 +80,8 @@ def run(ctx):
         "as go-ipfs-cmds v0.6.0 does (500 + JSON body before the first emitted value, X-Stream-Error trailer after it); "
         "its Go code is compared request by request with the daemon process of the specification",
         "time: PinTimeout 250 ms, request timeout 600 ms, unpin timeout 2 s, caller deadline 6 s; a call that ends only through the "
-        "caller's deadline is classified as 'hung'",
+        "caller's deadline is classified as 'hung'; one that has not returned 12 s after that deadline as 'never'; "
+        "a cancelling caller cancels 120 ms into the call (after the honest exchanges, before any connector timer)",
         "progress messages of one scripted stream arrive closer together than PinTimeout",
     ]
     # SPEC
@@ -83,7 +89,8 @@ def run(ctx):
     ctx.exhaustive = True
     if not ctx.quick():
         ctx.tlc("IPFSConnMC.tla", "IPFSConnMC_ideal.cfg", workers=8, timeout=1500, count=False)
-    for cfg, what in (("IPFSConnMC_waitorigins.cfg", "waiting for the swarm/connect answers lets a hanging origin hang the pin"),
+    for cfg, what in (("IPFSConnMC_nocallerctx.cfg", "requests that do not run under the caller's context never end against a silent daemon"),
+                      ("IPFSConnMC_waitorigins.cfg", "waiting for the swarm/connect answers lets a hanging origin hang the pin"),
                       ("IPFSConnMC_ascoded_stall.cfg", "a stalled pin/update is never given up (no watchdog on that path)"),
                       ("IPFSConnMC_notrailer.cfg", "without the X-Stream-Error check a late pin/add error reads as success")):
         r = ctx.tlc("IPFSConnMC.tla", cfg, workers=2, timeout=600, count=False, expect_violation=True)
@@ -95,14 +102,22 @@ def run(ctx):
     allc = parse_cases(r.out)
     if len(allc) < 1000:
         raise vcheck.Infra("script generation produced only %d scripts" % len(allc))
+    # a cancellation only matters when it meets a blocked request (which is then the last one)
+    allc = [c for c in allc if not c["cancel"] or (c["beh"] and c["beh"][-1] in BLOCKING)]
     allc.sort(key=lambda c: json.dumps(c, sort_keys=True))
     ctx.extra["scripts_in_model"] = len(allc)
     if ctx.quick():
-        small = [c for c in allc if c["op"] != "pin" or not c["upd"]]
-        big = [c for c in allc if c["op"] == "pin" and c["upd"]]
+        small = [c for c in allc if (c["op"] != "pin" or not c["upd"]) and not c["cancel"]]
+        big = [c for c in allc if c["op"] == "pin" and c["upd"] and not c["cancel"]]
+        canc = [c for c in allc if c["cancel"]]
         rng.shuffle(small)
         rng.shuffle(big)
-        chosen = small[:1500] + big[:3000]
+        rng.shuffle(canc)
+        # a never-finishing pin/add that nobody cancels costs the whole caller deadline: a few suffice here
+        slow = [c for c in small + big if "progForever" in c["beh"]]
+        small = [c for c in small if "progForever" not in c["beh"]]
+        big = [c for c in big if "progForever" not in c["beh"]]
+        chosen = small[:1500] + big[:2600] + canc[:600] + slow[:24]
         cases = [decorate(c, rng, i + 1) for i, c in enumerate(chosen)]
     else:
         # every script of the model, pins once without and once with origins
